@@ -69,9 +69,10 @@ func init() {
 			{Scenario: "xfer", Stratum: "", Quick: 900, Thorough: 30000},
 			{Scenario: "xfer", Stratum: "clean", Quick: 150, Thorough: 3000},
 			{Scenario: "core", Stratum: "", Quick: 1500, Thorough: 60000, PerJob: 32},
+			{Scenario: "sess-mtu", Stratum: "", Quick: 500, Thorough: 15000, PerJob: 8},
 		},
 		QuickBudget: 45 * time.Second, ThoroughBudget: 20 * time.Minute,
-		Rule: ruleRuns + "; stratum 'clean' runs the same swarm without faults (there a run is non-trivial if it completed); scenario 'core' drives two raw KCP cores (stream and message mode, fragmented messages up to and including exactly 256 fragments, both ways of driving the core) over the same fault model on one goroutine, with the byte-position oracle and message boundaries",
+		Rule: ruleRuns + "; stratum 'clean' runs the same swarm without faults (there a run is non-trivial if it completed); scenario 'core' drives two raw KCP cores (stream and message mode, fragmented messages up to and including exactly 256 fragments, both ways of driving the core) over the same fault model on one goroutine, with the byte-position oracle and message boundaries; scenario 'sess-mtu' applies SetMtu and SetStreamMode at seeded points in mid-transfer, with data queued and in flight",
 		Real: append(append([]string{}, realSession...), "raw KCP cores (scenario core)"), Stub: stubSession, Assumptions: assumeCommon,
 		WantProbes: []string{"drop", "duplicate", "reorder-delay", "retransmission-on-wire", "fec-parity-verified"},
 		nontrivial: func(r *proto.RunResult, nf int) bool { return r.Progress && (nf > 0 || r.Stratum == "clean") },
